@@ -370,7 +370,26 @@ def F20():
         shutil.rmtree(d)
 
 
-ALL = ["F1", "F2", "F3", "F4", "F5", "F6", "F7", "F8", "F9", "F11", "F13", "F14", "F15", "F16", "F17", "F18", "F19", "F20"]
+def F21():
+    import numpy
+    from mpilot.commands import Command
+    from mpilot.libraries.eems.fuzzy import FuzzyUnion
+
+    def field(name, vals):
+        c = Command(name)
+        c.is_fuzzy = True
+        c._result = numpy.ma.array(vals)
+        c.is_finished = True
+        return c
+    try:
+        got = FuzzyUnion("U").execute(InFieldNames=[field("A", [-1, 0, 1]), field("B", [1, 1, 0])]).tolist()
+    except Exception as e:
+        return "FuzzyUnion of the integer-typed fuzzy fields [-1, 0, 1] and [1, 1, 0] raises %s" % type(e).__name__
+    if got != [0.0, 0.5, 0.5]:
+        return "FuzzyUnion of the integer-typed fuzzy fields [-1, 0, 1] and [1, 1, 0] = %r (expected [0, 0.5, 0.5])" % (got,)
+
+
+ALL = ["F1", "F2", "F3", "F4", "F5", "F6", "F7", "F8", "F9", "F11", "F13", "F14", "F15", "F16", "F17", "F18", "F19", "F20", "F21"]
 
 if __name__ == "__main__":
     sel = sys.argv[1:] or ALL
